@@ -23,6 +23,12 @@ class WriteSite:
             return next(iter(self.owners)).split('#')[0]
         return self.fn.qualname
 
+    def owned_within(self, allowed) -> bool:
+        """Every documented function that reaches this site is one of `allowed` (a private implementation shared by two of the
+        allowed writers - `_update_pool(component, adding)` behind register and deregister - is no new writer)."""
+        owners = {o.split('#')[0] for o in (self.owners or {self.fn.qualname})}
+        return owners <= set(allowed)
+
     @property
     def owner_name(self) -> str:
         return self.owner_q.rsplit('.', 1)[-1]
